@@ -251,7 +251,9 @@ impl PurlShape for PackageType {
         match self {
             PackageType::Cargo | PackageType::Gem | PackageType::Npm | PackageType::Golang => {},
             PackageType::Maven => {
-                if parts.namespace.is_empty() {
+                // A namespace made up of only empty segments ("/") is written as
+                // `pkg:maven///name`, which parses as having no namespace.
+                if parts.namespace.split('/').all(str::is_empty) {
                     return Err(PackageError::MissingRequiredField(PurlField::Namespace));
                 }
             },
